@@ -129,6 +129,19 @@ CHECKS = {
         BASE_NOTE + 'MapReduce, debug operators and user-written operators are not modelled; the graph-level composition code is tied by execution only.',
         'DESIGN.md section 5 C03',
     ),
+    'C04': (
+        'Rocq proof of positional binding over a lifecycle model + histories whose every action runs in a fresh interpreter',
+        'PARTIAL. Model/C04.v: training runs (continuing from a previous generation), a registry of committed generations and '
+        'later actions on freshly expanded pipelines bound by position. Proved for every operator sequence and previous '
+        'generation: feeding the committed list back by position gives every stateful apply-path actor exactly the state its '
+        'own counterpart produced; re-training continues from the state at the actor\'s own position; train-only/label actors '
+        'are never persistent. Correspondence: histories of train / re-train / apply (latest or explicit generation) / '
+        'performance-tracking evaluation through the real Composition.persistent and asset.State machinery, each action in a '
+        'fresh process under another hash seed. The performance-tracking mis-binding of the unchanged code is a listed finding '
+        'whose exact predicted outcome is matched; anything else is a violation.',
+        BASE_NOTE + 'Garbage-collection driven registry edits are runtime behaviour; serving-side binding is exercised under C16.',
+        'DESIGN.md section 5 C04',
+    ),
 }
 NOT_YET = 'model and theorems not built yet in this round (planned, see DESIGN.md section 5/9)'
 
